@@ -270,3 +270,96 @@ def rule_translation_reading(ctx, rep, config="c-lib"):
         rep.ok("T1-transl", "rule_new_start/trans_len=0")
     else:
         rep.violation("T1-transl", "rule_new_start/trans_len=0", "a new rule does not start with an empty translation", where=g.where())
+
+
+def rule_first_ignored(ctx, rep, config="c-lib"):
+    rep.rule("T3-start", "the first ignored token reported after a recovery is  error token - (tokens dropped behind the error token): the value subtracted from "
+                         "start_tok_curr is a pure backward distance -- its reaching definitions are the distances returned by find_error_pl_set (and sums of them) "
+                         "handed from state to state, never a cost that also counts the tokens skipped ahead (cost + 1 per skipped token).  Otherwise the index can pass "
+                         "below 0 and build_pl reads toks[-1]")
+    p = ctx.prog(config)
+    f = p.fn("error_recovery")
+    rep.cover(p, [f.name, "new_recovery_state", "push_recovery_state"])
+    # the store to *start whose value is start_tok_curr - X
+    target = None
+    for s_ in f.all_insts():
+        if s_.op != "store":
+            continue
+        pa = resolve_addr(f, s_.ops[1])
+        if pa.root != ("a", 0):
+            continue
+        v = f.inst(strip_int_casts(f, s_.ops[0]))
+        if v is not None and v.op == "sub":
+            lp = loaded_from(f, v.ops[0])
+            if lp is not None and lp.root == ("g", "start_tok_curr"):
+                target = (s_, v.ops[1])
+    if target is None:
+        raise AnalysisBroken("T3-start: the computation  *start = start_tok_curr - ..  was not found in error_recovery")
+    s_, sub = target
+    xp = loaded_from(f, sub)
+    if xp is None or not (xp.last_field() or "").startswith("recovery_state."):
+        raise AnalysisBroken("T3-start: the subtrahend is not a member of a recovery state")
+    fld = xp.last_field()
+    # which parameter of new_recovery_state feeds the field
+    g = p.fn("new_recovery_state")
+    pk = None
+    for st in g.all_insts():
+        if st.op == "store" and resolve_addr(g, st.ops[1]).last_field() == fld:
+            o = strip_int_casts(g, st.ops[0])
+            if o.get("k") == "a":
+                pk = o["v"]
+    if pk is None:
+        raise AnalysisBroken("T3-start: new_recovery_state does not store a parameter into %s" % fld)
+    h = p.fn("push_recovery_state")
+    hk = None
+    for c in h.calls():
+        if c.callee == "new_recovery_state":
+            o = strip_int_casts(h, c.args[pk])
+            if o.get("k") == "a":
+                hk = o["v"]
+    out_allocas = set()
+    for c in f.calls():
+        if c.callee == "find_error_pl_set":
+            pa = resolve_addr(f, c.args[1])
+            if pa.root[0] == "alloca":
+                out_allocas.add(pa.root[1])
+
+    def backward_only(op, seen):
+        o = strip_int_casts(f, op)
+        if const_int(o) == 0:
+            return True
+        if o.get("k") != "i":
+            return False
+        if o["v"] in seen:
+            return True
+        seen = seen | set([o["v"]])
+        i = f.inst(o)
+        if i is None:
+            return False
+        if i.op == "load":
+            pa = resolve_addr(f, i.ops[0])
+            if pa.root[0] == "alloca" and pa.root[1] in out_allocas and not pa.steps:
+                return True
+            return pa.last_field() == fld
+        if i.op == "add":
+            return backward_only(i.ops[0], seen) and backward_only(i.ops[1], seen)
+        if i.op == "phi":
+            return all(backward_only(v, seen) for (v, _) in i.d["incoming"] if v.get("k") != "undef")
+        return False
+    n = 0
+    bad = []
+    for c in f.calls():
+        k = pk if c.callee == "new_recovery_state" else (hk if c.callee == "push_recovery_state" else None)
+        if k is None:
+            continue
+        n += 1
+        if not backward_only(c.args[k], set()):
+            bad.append(c)
+    if n < 4:
+        raise AnalysisBroken("T3-start: %d creations of recovery states in error_recovery (5 confirmed by reading)" % n)
+    if bad:
+        rep.violation("T3-start", "error_recovery/first-ignored", "`%s', which is subtracted from the error token's number to give the first ignored token, receives a cost that "
+                      "also counts tokens skipped after the error token (state created at %s): for a recovery that skips ahead the reported first ignored index is too "
+                      "small, it can be negative, and build_pl reads toks[-1]" % (fld.split(".")[-1], bad[0].where()), where=s_.where(), witness=[c.where() for c in bad][:4] + [s_.where()])
+    else:
+        rep.ok("T3-start", "error_recovery/first-ignored", sample={"member": fld, "state_creations": n})
